@@ -24,6 +24,7 @@ pub mod mate;
 pub mod refsearch;
 pub mod c17;
 pub mod fuzzplay;
+pub mod fuzzuci;
 pub mod c06;
 
 use frame::{Ctx, Report};
